@@ -109,8 +109,30 @@ def _split(draw):
             "col": draw(st.booleans())}
 
 
+@st.composite
+def _long(draw):
+    """A long line (up to 2^21 + 5000 samples: about 70 s of a 30 kHz recording) with few events, some of them on round
+    sample numbers - multiples of powers of two and of ten are where any internal block, batch or buffer size would put a
+    seam. The events are written by construction, so the expected fronts are known without a reference pass."""
+    p = draw(st.integers(12, 21))
+    n = (1 << p) + draw(st.one_of(st.integers(-3, 3), st.integers(1, 5000), st.integers(1, 1 << p)))
+    n = max(8, min(n, (1 << 21) + 5000))
+    cands = []
+    for _ in range(draw(st.integers(1, 6))):
+        q = draw(st.integers(8, 21))
+        base = draw(st.sampled_from([1 << q, 10 ** draw(st.integers(3, 6)), 3 * (1 << max(q - 2, 1))]))
+        cands.append(base * draw(st.integers(1, 4)) + draw(st.sampled_from([0, 0, 0, -1, 1])))
+    for _ in range(draw(st.integers(0, 6))):
+        cands.append(draw(st.integers(1, n - 1)))
+    ndim = draw(st.sampled_from([1, 1, 2]))
+    return {"mode": "long", "n": n, "pos": sorted({c for c in cands if 1 <= c < n}), "ndim": ndim,
+            "time_axis_first": draw(st.booleans()), "row": draw(st.integers(0, 1)),
+            "dtype": draw(st.sampled_from(["int8", "int8", "float64" if n <= (1 << 19) else "int8", "int16"])),
+            "axis_form": draw(st.sampled_from(["default", "kw"])), "amp": draw(st.sampled_from([1, 1, 5]))}
+
+
 def strategy(tier):
-    return st.one_of(_train(), _train(), _train(), _fronts(), _fronts(), _fronts(), _split())
+    return st.one_of(_train(), _train(), _train(), _train(), _fronts(), _fronts(), _fronts(), _fronts(), _split(), _long())
 
 
 def _bits(words):
@@ -291,6 +313,8 @@ def run_case(case, ctx):
         return
     if mode == "fronts":
         return _run_fronts(case, ctx)
+    if mode == "long":
+        return _run_long(case, ctx)
     if mode == "split":
         return _run_split(case, ctx, sg)
     _run_train(case, ctx, sg)
@@ -419,6 +443,56 @@ def _run_fronts(case, ctx):
                 got = sorted(got)
                 ctx.check(got == sorted(exp_ar), "C10.rises_analog",
                           lambda: f"analog rises ({lay} layout, axis {axis}): got {got[:6]} expected {sorted(exp_ar)[:6]}")
+
+
+def _run_long(case, ctx):
+    U = sut.utils()
+    n, pos, ndim, amp = case["n"], np.array(case["pos"], dtype=np.int64), case["ndim"], case["amp"]
+    dt = np.dtype(case["dtype"])
+    ind = np.zeros(n, dtype=np.int8)
+    ind[pos] = 1
+    line = ((np.cumsum(ind, dtype=np.int64) % 2) * amp).astype(dt)        # toggles at every listed sample
+    exp_pol = np.where(np.arange(pos.size) % 2 == 0, 1, -1) * amp
+    if ndim == 1:
+        x, axis = line, -1
+    else:
+        x = np.zeros((2, n), dtype=dt)
+        x[case["row"]] = line
+        axis = -1
+        if case["time_axis_first"]:
+            x, axis = np.ascontiguousarray(x.T), 0
+    ctx.label("long", "long_%dd" % ndim, "long_2^%d" % int(np.log2(n)), "long_dtype_" + case["dtype"],
+              "long_events_%d" % min(pos.size, 4))
+    if pos.size and n > 4096:
+        ctx.nontrivial = True
+    if np.any((pos & (pos - 1)) == 0) or np.any(pos % 1000 == 0):
+        ctx.label("long_event_on_round_sample")
+    keep = x.copy()
+    kw = {} if (case["axis_form"] == "default" and axis == -1) else {"axis": axis}
+    step = 1 if amp == 1 else 3
+    r = ctx.call("C10.long.fronts", U.fronts, x, step=step, **kw)
+    if r is not ctx.CRASH and ctx.check(isinstance(r, tuple) and len(r) == 2 and all(isinstance(a, np.ndarray) for a in r),
+                                        "C10.long.fronts", lambda: f"fronts returned {type(r).__name__}"):
+        gi, gp = r
+        if ndim == 1:
+            ok = gi.shape == pos.shape and np.array_equal(gi, pos)
+        else:
+            tpos = np.vstack([np.full(pos.size, case["row"]), pos]) if axis == -1 else np.vstack([pos, np.full(pos.size, case["row"])])
+            ok = gi.shape == tpos.shape and np.array_equal(gi, tpos)
+        ctx.check(ok, "C10.long.fronts", lambda: f"{n} samples, events at {pos.tolist()}: fronts at "
+                                                 f"{np.asarray(gi).T.tolist()[:8]}")
+        ctx.check(np.shape(gp) == pos.shape and np.array_equal(np.asarray(gp, dtype=np.float64), exp_pol), "C10.long.polarity",
+                  lambda: f"{n} samples, events at {pos.tolist()}: polarities {np.asarray(gp).tolist()[:8]} expected {exp_pol.tolist()[:8]}")
+    for nm, fn, sel, st_ in (("rises", U.rises, slice(0, None, 2), step), ("falls", U.falls, slice(1, None, 2), -step)):
+        r = ctx.call("C10.long." + nm, fn, x, step=st_, **kw)
+        if r is ctx.CRASH:
+            continue
+        e = pos[sel]
+        if ndim == 2:
+            e = np.vstack([np.full(e.size, case["row"]), e]) if axis == -1 else np.vstack([e, np.full(e.size, case["row"])])
+        ctx.check(isinstance(r, np.ndarray) and r.shape == e.shape and np.array_equal(r, e), "C10.long." + nm,
+                  lambda: f"{n} samples, events at {pos.tolist()}: {nm} at {np.asarray(r).T.tolist()[:8]}")
+    ctx.check(np.array_equal(x, keep), "C10.input_modified", "a front function changed its long input")
 
 
 def _e2e_layout(case, ctx, U, got, exp_all, lay, ro):
